@@ -301,20 +301,11 @@ theorem ra_no_user_inside {s : St} (w : WFS s) {x : Ent} (hx : x ∈ s.h.ents) {
 /-- `SInv` and `User` do not look at the ghost trace -/
 theorem ra_sinv_same {s : St} (hi : SInv s) {H : Heap} (hh : SameHeap H s.h) : SInv { s with h := H } := by
   have hents : H.ents = s.h.ents := hh.1
-  refine ⟨hi.wfs.of_same hh rfl rfl rfl, ?_, ?_, ?_, ?_⟩
-  · intro g hg hne
-    show _ ∧ ∃ e, findEnt H.ents _ = _ ∧ _
-    rw [hents]
-    exact hi.recs g hg hne
-  · intro pre x y post hes h8 ha
-    have hes' : s.h.ents = pre ++ x :: y :: post := by rw [← hents]; exact hes
-    exact hi.fence pre x y post hes' h8 ha
-  · intro g hg hne e he hin
-    have he' : e ∈ s.h.ents := by rw [← hents]; exact he
-    exact hi.tail g hg hne e he' hin
-  · intro g hg e he hb
-    have he' : e ∈ s.h.ents := by rw [← hents]; exact he
-    exact hi.head g hg e he' hb
+  refine gl_sinv_of_kept hi (hi.wfs.of_same hh rfl rfl rfl) ?_ ?_
+  · intro x hx hc _
+    exact ⟨x, by rw [hents]; exact entsOk_find x hx hi.wfs.ents, rfl, hc⟩
+  · intro y hy h8
+    exact ⟨y, by rw [← hents]; exact hy, rfl, h8⟩
 
 theorem ra_user_same {s : St} {H : Heap} (hh : H.ents = s.h.ents) (a z : Nat) :
     User { s with h := H } a z ↔ User s a z := by
@@ -850,5 +841,182 @@ theorem ra_into_top {s : St} (hi : SInv s) {p nb z : Nat} (hu : User s p z) (hnb
     (np := { addr := p, size := nb, cin := true, pin := e.pin, pfoot := e.pfoot })
     (nt := { addr := p + nb, size := z + s.h.topsize - nb, cin := false, pin := true, pfoot := 0 })
     ⟨by rw [i1]; simp, i2, i3, i4, i5, i6, i7⟩ rfl rfl rfl rfl rfl rfl rfl rfl rfl
+
+/-! ## F. growing into the free chunk after the user chunk (`dv` or a binned chunk) -/
+
+/-- the bookkeeping side of taking the free chunk at `c` off the free list: `H` (of which only the fields
+other than `ents` matter) lists the free chunks of `s.h` except `c` -/
+structure ra_Delisted (s : St) (H : Heap) (c : Nat) : Prop where
+  top : H.top = s.h.top
+  topsize : H.topsize = s.h.topsize
+  nd : (freeList H).Nodup
+  mem : ∀ a, a ∈ freeList H ↔ (a ∈ freeList s.h ∧ a ≠ c)
+  sb : (decide (H.sbins.length = 32) && sbinsFrom s.h.ents 0 H.sbins) = true
+  tb : (decide (H.tbins.length = 32) && tbinsFrom s.h.ents 0 H.tbins) = true
+  sub : ∀ a ∈ binned H, a ∈ binned s.h
+  dv : (H.dv = s.h.dv ∧ H.dvsize = s.h.dvsize ∧ c ≠ s.h.dv) ∨ (H.dv = 0 ∧ H.dvsize = 0)
+
+/-- `dv` given up -/
+theorem ra_delisted_dv {s : St} (w : WFS s) (hd0 : s.h.dv ≠ 0) {H : Heap} (h1 : H.sbins = s.h.sbins)
+    (h2 : H.tbins = s.h.tbins) (h3 : H.top = s.h.top) (h4 : H.topsize = s.h.topsize) (h5 : H.dv = 0)
+    (h6 : H.dvsize = 0) : ra_Delisted s H s.h.dv := by
+  have hnd0 := ((freeListOk_iff s.h).1 w.freeList).1
+  rw [freeList_dv hd0] at hnd0
+  have hfl : freeList H = (if s.h.top = 0 then [] else [s.h.top]) ++ ([] ++ binned s.h) := by
+    rw [freeList_nodv h5, h3, binned_congr h1 h2]
+  refine ⟨h3, h4, ?_, ?_, by rw [h1]; exact w.sbins, by rw [h2]; exact w.tbins, ?_, Or.inr ⟨h5, h6⟩⟩
+  · rw [hfl]; exact nodup_mid_replace hnd0 (by simp) (by simp)
+  · intro a
+    rw [hfl, freeList_dv hd0, mem_mid_replace hnd0 a]
+    simp
+  · intro a ha; rw [binned_congr h1 h2] at ha; exact ha
+
+/-- a binned chunk unlinked -/
+theorem ra_delisted_unlink {s : St} (w : WFS s) {c sz : Nat} {h1 : Heap} (e : unlink_chunk s.h c sz = .ok h1)
+    (hcd : c ≠ s.h.dv) {H : Heap} (i1 : H.sbins = h1.sbins) (i2 : H.tbins = h1.tbins) (i3 : H.top = h1.top)
+    (i4 : H.topsize = h1.topsize) (i5 : H.dv = h1.dv) (i6 : H.dvsize = h1.dvsize) : ra_Delisted s H c := by
+  have fr := unlink_chunk_frame e
+  have hfl : freeList H = freeList h1 := by unfold freeList binned; rw [i1, i2, i3, i5]
+  have hperm := unlink_chunk_freeList e
+  have hnd0 := ((freeListOk_iff s.h).1 w.freeList).1
+  have hnd1 : (c :: freeList h1).Nodup := (List.Perm.nodup_iff hperm).1 hnd0
+  obtain ⟨hc1, hnd2⟩ := List.nodup_cons.1 hnd1
+  have hbins := unlink_chunk_binsOk e w.sbins w.tbins
+  unfold sbinsOk tbinsOk at hbins
+  rw [fr.ents] at hbins
+  refine ⟨i3.trans fr.top, i4.trans fr.topsize, by rw [hfl]; exact hnd2, ?_, by rw [i1]; exact hbins.1,
+    by rw [i2]; exact hbins.2, ?_, Or.inl ⟨i5.trans fr.dv, i6.trans fr.dvsize, hcd⟩⟩
+  · intro a
+    rw [hfl, List.Perm.mem_iff hperm, List.mem_cons]
+    constructor
+    · intro h; exact ⟨Or.inr h, fun hac => hc1 (hac ▸ h)⟩
+    · rintro ⟨h | h, hne⟩
+      · exact absurd h hne
+      · exact h
+  · intro a ha
+    rw [binned_congr i1 i2] at ha
+    exact (List.Perm.mem_iff (unlink_chunk_binned e)).2 (List.mem_cons_of_mem _ ha)
+
+/-- the window `[e, x, y]`: a user chunk, the free chunk after it (not `top`), the in-use header after that -/
+structure ra_GrowAt (s : St) (p z : Nat) (pre post : List Ent) (e x y : Ent) (g : Seg) : Prop where
+  u : ra_UserAt s p z pre (y :: post) e x g
+  xf : isFree x = true
+  xt : x.addr ≠ s.h.top
+  ya : y.addr = x.addr + x.size
+  gy : inSeg g y = true
+  yc : y.cin = true
+  yp : y.pin = false
+  yf : y.pfoot = x.size
+
+theorem ra_grow_parts {s : St} (w : WFS s) {p z : Nat} {pre post : List Ent} {e x : Ent} {g : Seg}
+    (u : ra_UserAt s p z pre post e x g) (hf : isFree x = true) (hnt : x.addr ≠ s.h.top) :
+    ∃ y post', post = y :: post' ∧ ra_GrowAt s p z pre post' e x y g := by
+  obtain ⟨y, post', hp, h1, h2, h3, h4, h5⟩ := ra_next_free w u hf hnt
+  subst hp
+  exact ⟨y, post', rfl, u, hf, hnt, h1, h2, h3, h4, h5⟩
+
+/-- **exhaust**: the user chunk swallows the whole free chunk after it, which has been taken off the
+free list: `[e, x, y] ↦ [np, ny]` -/
+theorem ra_merge_exhaust_core {s : St} (hi : SInv s) {p z : Nat} {pre post : List Ent} {e x y : Ent} {g : Seg}
+    (ga : ra_GrowAt s p z pre post e x y g) {H : Heap} {np ny : Ent}
+    (hents : H.ents = pre ++ [np, ny] ++ post) (hD : ra_Delisted s H x.addr)
+    (np1 : np.addr = p) (np2 : np.size = z + x.size) (np3 : np.cin = true) (np4 : np.pin = e.pin)
+    (np5 : np.pfoot = e.pfoot)
+    (ny1 : ny.addr = y.addr) (ny2 : ny.size = y.size) (ny3 : ny.cin = true) (ny4 : ny.pin = true) :
+    SInv { s with h := H } ∧ ra_ResizedTo s { s with h := H } p (z + x.size) := by
+  have w := hi.wfs
+  obtain ⟨u, hxf, hxt, hya, hgy, hyc, hyp, hyf⟩ := ga
+  have hu : User s p z := ⟨e, u.find w, u.ec, u.es, u.z8, u.er⟩
+  have hem := u.mem_e
+  have hxm := u.mem_y
+  have hea := u.ea
+  have hesz := u.es
+  have hxa := u.ya
+  have hp16 := u.p16
+  have hz16 := u.z16
+  have hes : s.h.ents = pre ++ [e, x, y] ++ post := by rw [u.hes]; simp
+  have hym : y ∈ s.h.ents := by rw [hes]; simp
+  obtain ⟨hxc, hxp⟩ := isFree_iff.1 hxf
+  obtain ⟨hx16, hxs16, hxs⟩ := shapeOk_free w.shape hxm hxc
+  have hysh : y.addr % 16 = 0 ∧ y.size % 16 = 0 ∧ 16 ≤ y.size := by
+    rcases shapeOk_mem w.shape hym with h | h
+    · rw [hyp] at h; exact absurd h.2.2 (by decide)
+    · exact h
+  have hyfree : isFree y = false := by simp [isFree, hyc]
+  have hefree : isFree e = false := by simp [isFree, u.ec]
+  have hst0 : StructOk (pre ++ (e :: [x, y]) ++ post) s.segs s.h.top := by
+    have := w.struct; rw [hes] at this; exact this
+  have hg : g ∈ s.segs := u.hg
+  have hst : StructOk (pre ++ (np :: [ny]) ++ post) s.segs s.h.top :=
+    struct_window hst0 w.segsDisjoint hg
+      (by
+        intro q hq
+        simp only [List.mem_cons, List.not_mem_nil, or_false] at hq
+        rcases hq with rfl | rfl | rfl
+        · exact u.ge
+        · exact u.gy
+        · exact hgy)
+      (by simp only [contig, Bool.and_eq_true, decide_eq_true_eq, Bool.and_true]; omega)
+      (by simp only [endE, lastE]; omega)
+      (by
+        simp only [shapeOk, List.all_cons, List.all_nil, Bool.and_true, Bool.and_eq_true, Bool.or_eq_true,
+          decide_eq_true_eq]
+        exact ⟨Or.inr ⟨⟨by omega, by omega⟩, by omega⟩, Or.inr ⟨⟨by omega, by omega⟩, by omega⟩⟩)
+      (by simp only [lastE, isTrailerEnd, hyc, ny2, ny3]; exact id)
+      (fun _ _ => Iff.rfl)
+      ⟨np4, fun _ => ⟨by rw [np3, u.ec], np5⟩⟩
+      ⟨by simp only [lastE]; rw [ny3, hyc], fun hf => by simp [lastE, isFree, ny3] at hf⟩
+      (by simp [tagsFrom, linkOk, isFree, np3, ny4])
+  have hok' : entsOk H.ents = true := by rw [hents]; exact hst.ents
+  have hne : s.segs ≠ [] := fun h => by rw [h] at hg; cases hg
+  have fs1 : freeSet [e, x, y] = [x.addr] := by simp [freeSet, List.filter, hxf, hyfree, hefree]
+  have fs2 : freeSet [np, ny] = [] := by simp [freeSet, List.filter, isFree, np3, ny3]
+  have hxnb : x.addr ∉ binned H := by
+    intro hb
+    exact ((hD.mem x.addr).1 (mem_freeList_of_binned hb)).2 rfl
+  have w' : WFS { s with h := H } := by
+    have hbins := bins_window' w hes hents hok' hD.sb hD.tb hD.sub (by
+      intro q hq hf
+      simp only [List.mem_cons, List.not_mem_nil, or_false] at hq
+      rcases hq with rfl | rfl | rfl
+      · rw [hefree] at hf; cases hf
+      · exact Or.inr (Or.inr hxnb)
+      · rw [hyfree] at hf; cases hf)
+    refine wfs_of_parts w (by rw [hents, hD.top]; exact hst) ?_ hbins.1 hbins.2 ?_ ?_
+    · refine freeListOk_window hes hents w.ents hok' w.freeList hD.nd ?_
+      intro a
+      rw [hD.mem a, fs1, fs2]
+      simp
+    · rcases hD.dv with ⟨d1, d2, d3⟩ | ⟨d1, d2⟩
+      · refine dvOk_window w hes hents hok' d1 d2 ?_
+        intro q hq hf
+        simp only [List.mem_cons, List.not_mem_nil, or_false] at hq
+        rcases hq with rfl | rfl | rfl
+        · rw [hefree] at hf; cases hf
+        · exact d3
+        · rw [hyfree] at hf; cases hf
+      · unfold dvOk; rw [d1, d2]; rfl
+    · refine topOk_window w hes hents hok' hne hD.top hD.topsize ?_
+      intro q hq
+      simp only [List.mem_cons, List.not_mem_nil, or_false] at hq
+      rcases hq with rfl | rfl | rfl
+      · exact ⟨fun hf => (by rw [hefree] at hf; cases hf), Or.inl u.ec⟩
+      · exact ⟨fun _ => hxt, Or.inr hxp⟩
+      · exact ⟨fun hf => (by rw [hyfree] at hf; cases hf), Or.inl hyc⟩
+  have hrt : ResizeAtTab s.h.ents H.ents p (z + x.size) := by
+    rw [hes, hents]
+    refine ra_resizeAtTab_window hst.ents ?_ ⟨np, by simp, np1, np3, np2⟩ ?_
+    · intro q hq hc
+      simp only [List.mem_cons, List.not_mem_nil, or_false] at hq
+      rcases hq with rfl | rfl
+      · exact Or.inl np1
+      · exact Or.inr ⟨y, by simp, hyc, ny1.symm⟩
+    · intro q hq hc hne
+      simp only [List.mem_cons, List.not_mem_nil, or_false] at hq
+      rcases hq with rfl | rfl | rfl
+      · exact absurd hea hne
+      · rw [hxc] at hc; cases hc
+      · exact ⟨ny, by simp, ny1, ny2, ny3⟩
+  exact ra_sinv_resizeTo hi w' hu hrt (by omega)
 
 end TinyVerif.Dl
